@@ -450,6 +450,15 @@ fn build_rec(xot: &mut Xot, a: &ANode, route: Route, style: AttrStyle) -> Result
                 }
                 let hc = build_rec(xot, c, route, style)?;
                 xot.append(node, hc.node).map_err(|e| format!("append failed: {:?}", e))?;
+                if merge && c.kind == AKind::Text && (chars.len() + i) % 3 == 0 {
+                    // an EMPTY piece behind a text node: it has to vanish into its neighbour like any other piece
+                    if i % 2 == 0 {
+                        let t0 = xot.new_text("");
+                        xot.append(node, t0).map_err(|e| format!("append failed: {:?}", e))?;
+                    } else {
+                        xot.append_text(node, "").map_err(|e| format!("append_text failed: {:?}", e))?;
+                    }
+                }
                 if let Some(piece) = pending_before.take() {
                     let t = xot.new_text(&piece);
                     xot.insert_before(hc.node, t).map_err(|e| format!("insert_before failed: {:?}", e))?;
